@@ -12,6 +12,16 @@
 #include <dispenso/detail/math.h>
 #include <dispenso/platform.h>
 #include <dispenso/tsan_annotations.h>
+#include <dispenso/detail/verif_hooks.h>
+
+// Verification hook points of the small-buffer allocator.  They are opt-in on top of DISPENSO_VERIF
+// (-DDISPENSO_VERIF_SBA), because the allocator is reached from many other instrumented components whose
+// harnesses must not see these points.  Inert (expands to nothing) otherwise.
+#if defined(DISPENSO_VERIF) && defined(DISPENSO_VERIF_SBA)
+#define DISPENSO_VERIF_SBA_POINT(site, addr) DISPENSO_VERIF_POINT((site), (addr))
+#else
+#define DISPENSO_VERIF_SBA_POINT(site, addr) ((void)0)
+#endif
 
 #include <moodycamel/concurrentqueue.h>
 
@@ -108,9 +118,13 @@ class SmallBufferAllocator {
     uint32_t allocId = 0;
     auto& globals = getSmallBufferGlobals<kChunkSize>();
     auto& lock = globals.backingStoreLock;
+    DISPENSO_VERIF_SBA_POINT("sba.bytes.cas", &lock);
     while (!lock.compare_exchange_weak(allocId, 1, std::memory_order_acquire)) {
+      DISPENSO_VERIF_SBA_POINT("sba.bytes.cas", &lock);
     }
+    DISPENSO_VERIF_SBA_POINT("sba.bytes.size", &lock);
     size_t bytes = kMallocBytes * globals.backingStore.size();
+    DISPENSO_VERIF_SBA_POINT("sba.bytes.store", &lock);
     lock.store(0, std::memory_order_release);
     return bytes;
   }
@@ -174,13 +188,16 @@ class SmallBufferAllocator {
     auto& lock = globals.backingStoreLock;
     auto& backingStore = globals.backingStore;
     while (true) {
+      DISPENSO_VERIF_SBA_POINT("sba.grab.dequeue", &lock);
       size_t grabbed = queue.try_dequeue_bulk(buffers, kIdealNumTLBuffers);
       if (grabbed) {
         return grabbed;
       }
+      DISPENSO_VERIF_SBA_POINT("sba.grab.fetch_add", &lock);
       uint32_t allocId = lock.fetch_add(1, std::memory_order_acquire);
       if (allocId == 0) {
         char* buffer = reinterpret_cast<char*>(detail::alignedMalloc(kMallocBytes, kChunkSize));
+        DISPENSO_VERIF_SBA_POINT("sba.grab.push_back", &lock);
         backingStore.push_back(buffer);
 
         constexpr size_t kNumToPush = kBuffersPerMalloc - kIdealNumTLBuffers;
@@ -188,21 +205,26 @@ class SmallBufferAllocator {
         for (size_t i = 0; i < kNumToPush; ++i, buffer += kChunkSize) {
           topush[i] = buffer;
         }
+        DISPENSO_VERIF_SBA_POINT("sba.grab.enqueue", &lock);
         queue.enqueue_bulk(topush, kNumToPush);
+        DISPENSO_VERIF_SBA_POINT("sba.grab.store", &lock);
         lock.store(0, std::memory_order_release);
         for (size_t i = 0; i < kIdealNumTLBuffers; ++i, buffer += kChunkSize) {
           buffers[i] = buffer;
         }
         return kIdealNumTLBuffers;
       } else {
+        DISPENSO_VERIF_SBA_POINT("sba.grab.spin", &lock);
         while (lock.load(std::memory_order_relaxed)) {
           std::this_thread::yield();
+          DISPENSO_VERIF_SBA_POINT("sba.grab.spin", &lock);
         }
       }
     }
   }
 
   static void recycleToCentralStore(char** buffers, size_t numToRecycle) {
+    DISPENSO_VERIF_SBA_POINT("sba.recycle.enqueue", buffers);
     getThreadQueuingData().enqueue_bulk(buffers, numToRecycle);
     // TODO(bbudge): consider whether we need to do any garbage collection and return memory to
     // the system.
